@@ -41,7 +41,7 @@ def gen_plan(rng, index, tier):
     bp = {"rings": rng.choice([1, 2]), "symmetry": "full", "nfuel": rng.choice([1, 2, 3]), "plate": rng.random() < 0.4, "plenum": rng.random() < 0.4, "sfp": rng.random() < 0.5, "geom": "hex"}
     cfg = {"reactor": "gen", "blueprint": bp, "settings": {"nCycles": 1, "burnSteps": 1}, "actors": [], "ngeneric": rng.randint(4, 9), "rejected": rng.random() < 0.15}
     steps = []
-    kinds = ["g_add", "g_add", "g_insert", "g_remove", "g_removeAll", "g_setChildren", "a_remove", "a_add", "a_insert", "a_reorder", "a_sort", "b_remove", "b_add", "copy", "pickle", "detach_copy"]
+    kinds = ["g_add", "g_add", "g_insert", "g_remove", "g_removeAll", "g_setChildren", "a_remove", "a_add", "a_insert", "a_reorder", "a_sort", "a_removeAll", "a_setChildren", "b_remove", "b_add", "copy", "pickle", "detach_copy"]
     if cfg["rejected"]:
         kinds += ["x_remove_nonchild", "x_add_present"]
     for _ in range(rng.randint(10, 70)):
@@ -335,6 +335,31 @@ class Universe:
                 idx = st["c"] % (len(self.kids[a]) + 1)
                 O[a].insert(idx, O[c])
                 self.m_attach(a, c, idx)
+            return True
+        if op == "a_removeAll":
+            # on a detached copy of an assembly (the core's own assemblies keep their blocks)
+            asms = [hd for hd in self.of_class(is_asm) if self.parent[hd] is None and self.kids[hd]]
+            a = self.pick(asms, st["a"])
+            if a is None:
+                return False
+            O[a].removeAll()
+            for c in list(self.kids[a]):
+                self.m_detach(a, c)
+            return True
+        if op == "a_setChildren":
+            asms = [hd for hd in self.of_class(is_asm) if self.parent[hd] is None and len(self.kids[hd]) > 1]
+            a = self.pick(asms, st["a"])
+            if a is None:
+                return False
+            cur = list(self.kids[a])
+            new = [c for i, c in enumerate(cur) if (st["b"] >> i) & 1] or cur[:1]
+            if st["c"] % 2:
+                new.reverse()
+            O[a].setChildren([O[c] for c in new])
+            for c in cur:
+                self.m_detach(a, c)
+            for c in new:
+                self.m_attach(a, c)
             return True
         if op == "a_reorder":
             a = self.pick(self.of_class(is_asm), st["a"])
